@@ -118,11 +118,8 @@ func (w *Worker) ensureSolver() {
 		if w.eng.cfg.Primary != "" {
 			kind = w.eng.cfg.Primary.kind()
 		}
-		switch os.Getenv("SYMGO_SOLVER") {
-		case "z3-new":
-			kind = SolverZ3New
-		case "cvc5":
-			kind = SolverCVC5
+		if e := os.Getenv("SYMGO_SOLVER"); e != "" {
+			kind = solverName(e).kind()
 		}
 		s, err := NewSolver(kind, w.eng.cfg.QueryTimeout)
 		if err != nil {
